@@ -27,7 +27,7 @@ m = {
     "setup_cmd": "./setup.sh",
     "hooks": {"guard": "sierradb_verif", "enable": "rustflags --cfg sierradb_verif in /verif/harness/.cargo/config.toml (the harness builds /repo's crates as path dependencies)",
               "baseline_off_cmd": "cd /repo && cargo test --workspace --no-fail-fast --offline",
-              "source_commits": hook_commits, "add_only": True},
+              "source_commits": hook_commits, "add_only": False},
     "engines": [
         {"name": "lean-model", "path": "/verif/lean", "serves_properties": [c["property_id"] for c in checks],
          "kind_free_text": "Lean 4 executable models (SierraModel/*), property theorems (SierraModel/Props/*.lean), compiled model driver modeldrv"},
